@@ -6,7 +6,7 @@ import numpy as np
 
 from vfw import oracle
 
-CELL_STRATA = ["generic", "near_orth", "oblique", "one90", "two_equal", "anisotropic", "very_oblique"]
+CELL_STRATA = ["generic", "near_orth", "oblique", "one90", "two_equal", "anisotropic", "very_oblique", "symmetric"]
 
 
 def cell(rng, stratum=None, min_gram=0.02):
@@ -25,6 +25,14 @@ def cell(rng, stratum=None, min_gram=0.02):
             # all three far from 90: e.g. rhombohedral-like acute or one obtuse two acute
             base = rng.choice([35.0, 50.0, 65.0, 110.0, 115.0])
             ang = base + rng.uniform(-8, 8, 3)
+        elif stratum == "symmetric":
+            # exact ties: the metric symmetries of the seven lattice types (equal axes, equal angles, exact 90 / 120)
+            a, b, c_ = (float(x) for x in abc)
+            kind = int(rng.integers(7))
+            al = float(rng.choice([rng.uniform(40, 115), 60.0, 70.0, 109.47122063449069, 100.0]))
+            return [[a, a, a, 90.0, 90.0, 90.0], [a, a, c_, 90.0, 90.0, 90.0], [a, b, c_, 90.0, 90.0, 90.0],
+                    [a, a, c_, 90.0, 90.0, 120.0], [a, a, a, al, al, al], [a, b, c_, 90.0, float(rng.uniform(60, 135)), 90.0],
+                    [a, b, b, 90.0, 90.0, 90.0]][kind], stratum
         elif stratum == "one90":
             ang = rng.uniform(5, 175, 3)
             ang[int(rng.integers(3))] = 90.0
